@@ -164,6 +164,8 @@ def run(ck):
     for k, s in enumerate(sel):
         cases.append({'key': f'{s}|{"kekule" if k % 2 else "thiele"}|{k % 3}', 'smi': s, 'form': 'kekule' if k % 2 else 'thiele', 'renumber': k % 3 == 1, 'coords': k % 3 == 2,
                       'rs': rnd.randrange(1 << 30)})
+        if k % 5 == 0:      # coordinates on a renumbered molecule (atom numbers and positions differ)
+            cases.append({'key': f'{s}|kekule|renumbered-with-coordinates', 'smi': s, 'form': 'kekule', 'renumber': True, 'coords': True, 'rs': rnd.randrange(1 << 30)})
         if ('@' in s and k % 4 == 0 and len(s) < 60) or '[2H]' in s:
             cases.append({'key': f'{s}|kekule|explicit-hydrogens|{k % 2}', 'smi': s, 'form': 'kekule', 'renumber': bool(k % 2), 'coords': False, 'explicit': True, 'rs': rnd.randrange(1 << 30)})
     cases = ck.select('conversions', cases)
